@@ -9,6 +9,10 @@ func vNondetBool() bool
 func vNondetUint8() uint8
 func vNondetString() string
 func vAssume(c bool)
+func vPrologueEnd()
+
+// vLibGoroutinesAlive: number of goroutines started by library code (not by the harness) that have not finished
+func vLibGoroutinesAlive() int
 func vAssert(id string, c bool)
 func vReach(id string)
 func vAtQuiescence(f func())
